@@ -143,7 +143,7 @@ def run(ctx, replay=None):
         if r:
             slim = {k: c[k] for k in c if k not in ("img", "img_after")} if len(c["img"]) > 400 else c
             ctx.classify(r[0], "C07 oracle: " + r[1], slim)
-    nsh = 16
+    nsh = 16 if quick else 96
     shards = [cases[i::nsh] for i in range(nsh)]
     texts = []
     for sh in shards:
